@@ -2,10 +2,12 @@
 # Soak: run every check's quick tier under many VERIF_SEED values and report any run that
 # does not exit 0 (a false alarm or a harness error on the unchanged tree).
 # usage: tools/soak.sh <first_seed> <last_seed> [checks...]
+# Replays of anything found are kept under $SOAK_REPLAY_DIR (default /tmp/soak_replays), which
+# survives the removal of a `vp run` snapshot.
 cd "$(dirname "$0")/.."
 first=${1:-1}; last=${2:-20}; shift 2
 checks=${@:-C05 C11 C13 C14}
-export VERIF_REPLAY_DIR=${VERIF_REPLAY_DIR:-$PWD/replays/soak}
+export VERIF_REPLAY_DIR=${SOAK_REPLAY_DIR:-/tmp/soak_replays}
 mkdir -p "$VERIF_REPLAY_DIR"
 bad=0
 for s in $(seq $first $last); do
